@@ -401,10 +401,12 @@ def plan_for(prop, tier, seed):
         P["rule"] = "non-trivial = builds of graphs with edges; the hook counter of rank-queue pops is compared with n*n+n"
     elif prop == "C20":
         P["design"] = multi_sweep(tier, True)
-        P["families"] = [fam("multi_overlap", shards=6, count=20000 if T else 1500), fam("multi_exh", shards=6, sample=3 if T else 160, focus="overlap")]
+        P["families"] = [fam("multi_overlap", shards=6, count=20000 if T else 1500), fam("multi_exh", shards=6, sample=3 if T else 160, focus="overlap"),
+                         fam("multi_threads", shards=4 if T else 2, count=8000 if T else 800)]
         P["report"] = {"*"}
         P["nontrivial_keys"] = ["fresh_compare"]
-        P["rule"] = "two overlapping runs on one graph; non-trivial = runs re-executed alone on a fresh graph and compared event by event"
+        P["rule"] = ("two or three overlapping runs on one graph, interleaved in one task or each on its own OS thread (turn-taking); "
+                     "non-trivial = runs re-executed alone on a fresh graph and compared event by event")
     else:
         raise SystemExit(f"unknown property {prop}")
     # ---- the build of fn_graph without `interruptible`
@@ -423,7 +425,8 @@ def plan_for(prop, tier, seed):
     elif prop == "C15":
         P["families"] += [fam("multi_seq", shards=2, count=5000 if T else 500, plain=True, tag="p")]
     elif prop == "C20":
-        P["families"] += [fam("multi_overlap", shards=2, count=5000 if T else 500, plain=True, tag="p")]
+        P["families"] += [fam("multi_overlap", shards=2, count=5000 if T else 500, plain=True, tag="p"),
+                          fam("multi_threads", shards=1, count=2000 if T else 300, plain=True, tag="p")]
     P["exhaustive"] = bool(T and all(f.get("sample", 1) == 1 for f in P["families"] if f["family"].endswith("_exh")))
     # hook-level conformance (impl -> design model): a rotating selection of option sets per property
     off = int(prop[1:]) * 7 + seed
